@@ -632,4 +632,38 @@ def standin_end_position(tier, seed):
     return dict(name='end_position', bound=bound, cases=len(cases), status='ok', detail='%d END tokens seen' % seen)
 
 
-STANDINS = [standin_end_position, standin_layout_tokens, standin_layout_ast, standin_true_positions, standin_operator_munch, standin_vocab_pairs, standin_string_literals]
+def standin_template_expressions(tier, seed):
+    """The expressions embedded in a format template are tokenized like any other program text: layout and comments do not matter,
+    string literals inside keep every byte, a keyword at the very end of the embedded text is that keyword."""
+    base = [('1 + 2', '3'), ('item + 2', None), ('"a" + "b"', 'ab'), ('NULL', None), ('true', 'true'), ('false', 'false'), ('[1, 2].0', '1'), ('{a = 7}.a', '7'),
+            ('"a  b"', 'a  b'), ('"a\\tb"', 'a\tb'), ('"x // not a comment"', 'x // not a comment'), ('1 + 2 * 3', '7'), ('"\xe9\xe8 \u65e5"', '\xe9\xe8 \u65e5')]
+    layouts = [lambda e: e, lambda e: ' ' + e + ' ', lambda e: e.replace(' + ', '\n+\n'), lambda e: e.replace(' + ', ' // c\n + '), lambda e: e + ' // tail\n',
+               lambda e: '\t' + e.replace(' + ', '\t+\t'), lambda e: e.replace(' + ', '  +  '), lambda e: '// lead\n' + e, lambda e: e.replace(' + ', '\r\n+ ')]
+    cases, groups = [], []
+    for expr, want in base:
+        idx = []
+        for lay in layouts:
+            txt = lay(expr)
+            # inside a UCG string literal: backslash and double quote are escaped, everything else is literal (newlines, tabs)
+            lit = txt.replace('\\', '\\\\').replace('"', '\\"')
+            cases.append('let v = "@{%s}" %% 5;' % lit)
+            idx.append(len(cases) - 1)
+        groups.append((expr, want, idx))
+    res = R.driver('eval', cases)
+    bound = '%d programs: %d embedded expressions x %d layouts (blanks, tabs, newlines, CRLF, comments before / inside / after) inside `"@{...}" %% 5`' % (len(cases), len(base), len(layouts))
+    for expr, want, idx in groups:
+        outs = [res[i] for i in idx]
+        ref = outs[0]
+        for i, o in zip(idx, outs):
+            if o != ref:
+                return dict(name='template_expressions', bound=bound, cases=len(cases), status='violation',
+                            detail='the same embedded expression `%s` gives %s %s as written and %s %s in another layout: `%s`' % (expr, ref[0], ref[1][:80], o[0], o[1][:80], cases[i][:200]),
+                            input=dict(source=cases[i], expected='the same result as `%s`: %s %s' % (cases[idx[0]], ref[0], ref[1]), observed='%s %s' % o, how='replay driver `eval`'))
+        if want is not None and (ref[0] != 'OK' or ('"%s"' % want) not in ref[1].replace('\\t', '\t')):
+            return dict(name='template_expressions', bound=bound, cases=len(cases), status='violation',
+                        detail='`"@{%s}" %% 5` gives %s %s, expected the text %r' % (expr, ref[0], ref[1][:120], want),
+                        input=dict(source=cases[idx[0]], expected=want, observed='%s %s' % ref, how='replay driver `eval`'))
+    return dict(name='template_expressions', bound=bound, cases=len(cases), status='ok')
+
+
+STANDINS = [standin_template_expressions, standin_end_position, standin_layout_tokens, standin_layout_ast, standin_true_positions, standin_operator_munch, standin_vocab_pairs, standin_string_literals]
